@@ -12,16 +12,10 @@
 (*   [t |-> "opt",  s |-> text]   expected-pattern only: key may be absent *)
 (* 64-bit numbers and awkward text are atoms expanded by the driver.       *)
 (***************************************************************************)
-EXTENDS Gql, TLC
+EXTENDS Gql, JsonVal, TLC
 
 CONSTANTS Fuel,       \* objects that may be entered on one path before values are cut short
           FlipFuel    \* positions are varied only while fuel >= FlipFuel
-
-\* (uniform record shape: TLC must be able to compare any two values inside sets)
-Sc(t, s)  == [t |-> t, s |-> s, o |-> <<>>, l |-> <<>>]
-Null      == Sc("null", "")
-Obj(ps)   == [t |-> "obj", s |-> "", o |-> ps, l |-> <<>>]
-Lst(vs)   == [t |-> "list", s |-> "", o |-> <<>>, l |-> vs]
 
 \* an alternative for one position: kind a, parameter x, value val
 Alt(a, x, val) == [a |-> a, x |-> x, val |-> val]
@@ -65,8 +59,6 @@ WrongKind(b) ==
     [] b = "Date"    -> {}
     [] OTHER         -> {Sc("int", "1"), Sc("bool", "true")}      \* enum
 
-EmptyObj  == Obj(<<>>)
-EmptyList == Lst(<<>>)
 
 \* what a lossless client gives back for a leaf value: integer IDs become decimal strings
 Canon(b, v) == IF b = "ID" /\ v.t = "int" THEN Sc("str", v.s) ELSE v
